@@ -174,7 +174,10 @@ class Sched:
         sys.settrace(None)
         st = self.threads[tid]
         st.status = "done"
-        self.log.add(self.now, tid, "thread-exit", repr(st.died) if st.died else "")
+        if not self.aborting:
+            # (threads unwinding after an abort all run at once, in an order the OS decides:
+            # nothing they do is part of the recorded history any more)
+            self.log.add(self.now, tid, "thread-exit", repr(st.died) if st.died else "")
         if self.aborting:
             self._abort_wake_next(tid)
             return
